@@ -71,6 +71,7 @@ def run(ctx):
     for cfg in ("MC_ParallelExec.cfg", "MC_ParallelExec_2.cfg", "MC_ParallelExec_3.cfg"):
         c.tlc_l1(ctx, "ParallelExec.tla", cfg, workers=2)
     c.tlc_l1(ctx, "ParallelExec.tla", "MC_ParallelExec_w.cfg", expect_violation="Reach_TwoWorkersBuffered", workers=2)
+    c.apalache_lemma(ctx, "ChunkLemma.tla", "Init", "Lemma", "WrongLemma")      # the chunk arithmetic, for ALL n and thread counts
     gen = "Gen_ParallelCfgs.cfg" if q else "Gen_ParallelCfgs_all.cfg"
     edges = ctx.path(gen + ".edges")
     casefile = ctx.path("case_in_flight.json")
